@@ -95,8 +95,16 @@ def bban_for(row: dict, rng: random.Random, mode: str = "random") -> str | None:
             out.append(chars[-1])
         elif mode == "letters" and k == 99:
             out.append(rng.choice(UPPER))
+        elif mode == "sparse":
+            out.append(chars[0])
         else:
             out.append(rng.choice(chars))
+    if mode == "sparse":
+        # zero padding with one or two significant characters (what account numbers mostly look like):
+        # long runs of zeros after a non-zero character
+        for _ in range(rng.choice((1, 1, 2))):
+            p = min(rng.randrange(len(out)), rng.randrange(len(out)))
+            out[p] = rng.choice(class_chars(cls[p])[1:] or class_chars(cls[p]))
     return "".join(out)
 
 
